@@ -264,11 +264,12 @@ abbrev Scheduler := Nat → Nat → Nat → List Nat
 def Scheduler.Valid (sched : Scheduler) : Prop :=
   ∀ sec k n, (sched sec k n).Perm (List.range n)
 
-/-- `parallel_tempering_step` in driver iteration `k`: early return only for an EMPTY container; cutoffs set by
+/-- `parallel_tempering_step` in driver iteration `k`: early return for ≤ 1 replica like the serial step (since `fix:`
+f20b8b5, finding F30; before, only for an EMPTY container); cutoffs set by
 `par_iter_mut`; phase *a* through `parallel_perform_swaps`, phase *b* through the serial `perform_swaps`
 (as in the source). -/
 def parTemperingStep (ops : Ops F64 R Q U) (sched : Scheduler) (k : Nat) (tc : TC F64 R Q) : TC F64 R Q :=
-  if tc.graphs.isEmpty then tc
+  if tc.graphs.length ≤ 1 then tc
   else temperingBody ops
     (fun c l => parSection (fun _ g => (ops.setCutoff c g.1, g.2)) (sched 1 k l.length) l)
     (fun r l eqs => parPerformSwaps ops (sched 2 k (min (l.length / 2) eqs.length)) r l eqs)
